@@ -1,18 +1,30 @@
 //@ unit translate_ops
 //@ serves C01
-//@ must_verify OpsMap::push OpsMap::replace OpsMap::len bin_add_arm bin_and_arm
+//@ must_verify OpsMap::push OpsMap::replace OpsMap::len lemma_appended_is_prefix bin_add_arm bin_sub_arm bin_div_arm bin_mul_arm bin_mod_arm bin_equal_arm bin_gt_arm bin_lt_arm bin_gteq_arm bin_lteq_arm bin_noteq_arm bin_rematch_arm bin_notrematch_arm bin_is_arm bin_and_arm bin_or_arm not_arm grouped_arm cast_arm fail_arm range_arm convert_arm map_arm filter_arm reduce_arm func_arm select_arm stmt_let_arm stmt_constraint_arm stmt_expr_arm stmt_assert_arm stmt_out_arm main
 //@ include prelude/head.rs
 use std::rc::Rc;
 
+// C01, the translator's side: the STRUCTURE of the opcode sequence each arm of AST::translate_expr /
+// AST::translate_stmt emits - operand order, the operator's op, and where every relative jump continues.
+// The VM's side of each op is under contract in units vm_arith / vm_ctrl (left operand on top of the stack;
+// a relative jump `j` at index i moves the pointer to i + j and the run loop then advances by one, i.e.
+// execution continues at i + j + 1).
+// Every arm is extracted from the real source as a function of its free variables; the recursive call is an
+// assumed stub whose contract is the induction hypothesis (appends >= 1 op, never touches what is there) and
+// every arm is proved to re-establish it (`appended`).
+
 verus! {
 //@ include prelude/core.rs
-//@ opaque Position Expression VPath VShapeMap VLinks Hook ConstraintArmType
+//@ opaque Position Expression VPath VShapeMap VLinks ConstraintArmType Scope VBoxError Statement
 //@ clone_spec Position
 
 //@ extract src/build/opcode/mod.rs :: enum Primitive
 //@   rule R0
 //@ end
 //@ extract src/ast/mod.rs :: enum CastType
+//@   rule R0
+//@ end
+//@ extract src/build/opcode/mod.rs :: enum Hook
 //@   rule R0
 //@ end
 //@ extract src/build/opcode/mod.rs :: enum Op
@@ -43,43 +55,133 @@ verus! {
 //@   >>>
 //@ end
 
+// ---------- the AST pieces the arms take apart (real definitions; Expression itself stays opaque) ----------
+//@ extract src/ast/mod.rs :: enum TokenType
+//@   rule R0
+//@ end
+//@ extract src/ast/mod.rs :: struct Token
+//@   rule R0
+//@ end
+//@ extract src/ast/mod.rs :: struct PositionedItem
+//@   rule R0
+//@ end
+//@ extract src/ast/mod.rs :: type FieldList
+//@ end
 //@ extract src/ast/mod.rs :: enum BinaryExprType
 //@   rule R0
 //@ end
 //@ extract src/ast/mod.rs :: struct BinaryOpDef
 //@   rule R0
 //@ end
+//@ extract src/ast/mod.rs :: struct NotDef
+//@   rule R0
+//@ end
+//@ extract src/ast/mod.rs :: struct CastDef
+//@   rule R0
+//@ end
+//@ extract src/ast/mod.rs :: struct FailDef
+//@   rule R0
+//@ end
+//@ extract src/ast/mod.rs :: struct RangeDef
+//@   rule R0
+//@ end
+//@ extract src/ast/mod.rs :: struct SelectDef
+//@   rule R0
+//@ end
+//@ extract src/ast/mod.rs :: struct FuncDef
+//@   rule R0
+//@ end
+//@ extract src/ast/mod.rs :: struct LetDef
+//@   rule R0
+//@ end
+//@ extract src/ast/mod.rs :: struct ConstraintBindingDef
+//@   rule R0
+//@ end
+//@ extract src/ast/mod.rs :: struct ConvertDef
+//@   rule R0
+//@ end
+//@ extract src/ast/mod.rs :: struct MapFilterOpDef
+//@   rule R0
+//@ end
+//@ extract src/ast/mod.rs :: struct ReduceOpDef
+//@   rule R0
+//@ end
+//@ extract src/ast/mod.rs :: enum FormatArgs
+//@   rule R0
+//@ end
+//@ extract src/ast/mod.rs :: struct FormatDef
+//@   rule R0
+//@ end
+//@ extract src/ast/mod.rs :: enum TemplatePart
+//@   rule R0
+//@ end
+
+impl Expression {
+    // ast::Expression::pos (R8): only feeds the position table
+    #[verifier::external_body]
+    pub fn pos(&self) -> &Position { unimplemented!() }
+}
+
+// `"literal".into()` (&str -> Rc<str>, std): the text is preserved.  (R9': vstd's spec of `Into::into` cannot be
+// instantiated for the foreign pair (&str, Rc<str>); call sites become `.vinto()`.)
+pub trait VIntoRcStr: Sized {
+    spec fn vtext(&self) -> Seq<char>;
+    fn vinto(self) -> (r: Rc<str>) ensures r@ == self.vtext();
+}
+impl VIntoRcStr for &str {
+    open spec fn vtext(&self) -> Seq<char> { (**self)@ }
+    #[verifier::external_body]
+    fn vinto(self) -> (r: Rc<str>) { unimplemented!() }
+}
+impl VIntoRcStr for String {
+    open spec fn vtext(&self) -> Seq<char> { (*self)@ }
+    #[verifier::external_body]
+    fn vinto(self) -> (r: Rc<str>) { unimplemented!() }
+}
 
 // ---------- ghost labels for the opaque fragments ----------
 // `frag(e, a, b)`: "a call translate_expr(e, ..) appended exactly the ops at indices [a, b)".
 // `op_at(e, a, b, k, op)`: "... and the op it left at index k was `op`".
-// Both are UNINTERPRETED: the assumed contract of the recursive call below says nothing about WHAT is emitted
-// (under the interpretation `true` both clauses are vacuous); they only let a contract say which operand's code
-// sits where and that it is still intact.  A proof has to go through for every interpretation, so code that
-// emits the operands in another order, or overwrites an op inside a fragment, is rejected.
+// Both are UNINTERPRETED and occur only in the assumed contract of the recursive call: they assume nothing about
+// WHAT is emitted (under the interpretation `true` both clauses are vacuous); they only let a contract say which
+// operand's code sits where and that it is still intact.  A proof has to go through for every interpretation, so
+// an arm that emits its operands in another order, or overwrites an op inside an operand's code, is rejected.
 pub uninterp spec fn frag(e: Expression, a: int, b: int) -> bool;
 pub uninterp spec fn op_at(e: Expression, a: int, b: int, k: int, op: Op) -> bool;
 
-// the ops s[a..b) are the (intact) code of e
+// the ops s[a..b) are the (intact, non-empty) code of e
 pub open spec fn code_at(e: Expression, s: Seq<Op>, a: int, b: int) -> bool {
     &&& frag(e, a, b)
     &&& 0 <= a < b <= s.len()
     &&& forall|k: int| a <= k < b ==> op_at(e, a, b, k, #[trigger] s[k])
 }
 
-// `b` extends `a`: at least one op appended, nothing that was there modified or removed; ops and positions stay in step
-pub open spec fn appended(a: OpsMap, b: OpsMap) -> bool {
-    &&& b.ops@.len() > a.ops@.len()
-    &&& b.pos@.len() > a.pos@.len()
-    &&& b.ops@.subrange(0, a.ops@.len() as int) =~= a.ops@
-    &&& b.pos@.subrange(0, a.pos@.len() as int) =~= a.pos@
+// nothing that was in `a` is modified or removed in `b`; ops and positions grow in step
+pub open spec fn extends(a: OpsMap, b: OpsMap) -> bool {
+    &&& b.ops@.len() >= a.ops@.len()
+    &&& b.pos@.len() - a.pos@.len() == b.ops@.len() - a.ops@.len()
     &&& forall|k: int| 0 <= k < a.ops@.len() ==> (#[trigger] b.ops@[k]) == a.ops@[k]
     &&& forall|k: int| 0 <= k < a.pos@.len() ==> (#[trigger] b.pos@[k]) == a.pos@[k]
-    &&& (a.pos@.len() == a.ops@.len() ==> b.pos@.len() == b.ops@.len())
+}
+// ... and at least one op was appended
+pub open spec fn appended(a: OpsMap, b: OpsMap) -> bool {
+    extends(a, b) && b.ops@.len() > a.ops@.len()
+}
+// `appended` in the words of the task statement: the old op / position lists are prefixes of the new ones,
+// and `pos.len() == ops.len()` is preserved.
+proof fn lemma_appended_is_prefix(a: OpsMap, b: OpsMap)
+    requires appended(a, b)
+    ensures
+        b.ops@.len() > a.ops@.len(), b.ops@.subrange(0, a.ops@.len() as int) == a.ops@,
+        b.pos@.len() > a.pos@.len(), b.pos@.subrange(0, a.pos@.len() as int) == a.pos@,
+        a.pos@.len() == a.ops@.len() ==> b.pos@.len() == b.ops@.len(),
+{
+    assert(b.ops@.subrange(0, a.ops@.len() as int) =~= a.ops@);
+    assert(b.pos@.subrange(0, a.pos@.len() as int) =~= a.pos@);
 }
 
-// AST::translate_expr, the recursive call (R8) - ASSUMED: it appends at least one op and never modifies or removes
-// ops already present (this is also what every arm below is proved to do: the induction hypothesis).
+// AST::translate_expr, the recursive call (R8) - ASSUMED, and nothing else: it appends at least one op and never
+// modifies or removes ops already present.  (Every arm below is proved to do the same: the induction hypothesis.)
 #[verifier::external_body]
 fn translate_expr(expr: Expression, ops: &mut OpsMap, root: &VPath)
     ensures
@@ -87,9 +189,16 @@ fn translate_expr(expr: Expression, ops: &mut OpsMap, root: &VPath)
         code_at(expr, final(ops).ops@, old(ops).ops@.len() as int, final(ops).ops@.len() as int),
 { unimplemented!() }
 
-// ---------- oracle: binary operators ----------
-// VM convention (units vm_arith / vm_ctrl): the LEFT operand is on top of the stack, so the code of the RIGHT
-// operand runs first, then the code of the LEFT operand, then the operator's op(s) `tail`.
+// ---------- oracle ----------
+// A relative jump `j` at index i: the VM sets the pointer to i + j (vm_ctrl: `jump_target`) and the run loop
+// advances by one (`OpPointer::next`), so execution continues at i + j + 1.
+pub open spec fn continues_at(i: int, j: i32, target: int) -> bool { i + j + 1 == target }
+// Jump offsets are `i32`s computed with `as i32`: they are only meaningful for programs shorter than 2^31 ops
+// (the same caller obligation as vm_ctrl's `jump_pre`).
+pub open spec fn small(s: Seq<Op>) -> bool { s.len() <= i32::MAX }
+
+// Binary operators.  VM convention (vm_arith / vm_ctrl): the LEFT operand is on top of the stack, the RIGHT one
+// below it.  So: code of the RIGHT operand, code of the LEFT operand, then exactly the operator's op(s) `tail`.
 pub open spec fn binary_emits(a: OpsMap, b: OpsMap, l: Expression, r: Expression, tail: Seq<Op>) -> bool {
     let n0 = a.ops@.len() as int;
     let n = b.ops@.len() as int;
@@ -98,16 +207,35 @@ pub open spec fn binary_emits(a: OpsMap, b: OpsMap, l: Expression, r: Expression
     &&& b.ops@.subrange(n - tail.len(), n) =~= tail
 }
 
-// Short-circuit operators (reference: `&&` / `||` evaluate the left operand first and the right one only if
-// needed; unit vm_ctrl: `And(j)` / `Or(j)` at index i continue at i + j + 1 when they short-circuit):
-// code(left), the jump op at index i, code(right), and i + j + 1 is exactly the end of the fragment.
+// `&&` / `||` (reference: "Both of them short circuit"): the left operand is evaluated first; `And(j)` / `Or(j)`
+// (vm_ctrl `short_circuit`) keeps it as the result and jumps when it is false / true, else drops it and falls
+// into the right operand's code.  Layout: code(left), the op at index i, code(right), and the jump continues
+// exactly behind the right operand's code, which is the end of the fragment.
 pub open spec fn short_circuit_emits(a: OpsMap, b: OpsMap, l: Expression, r: Expression, is_and: bool) -> bool {
     let n0 = a.ops@.len() as int;
     let n = b.ops@.len() as int;
     &&& appended(a, b)
     &&& exists|i: int| #[trigger] frag(l, n0, i) && code_at(l, b.ops@, n0, i) && code_at(r, b.ops@, i + 1, n)
-            && (n <= i32::MAX ==> (if is_and { b.ops@[i] == Op::And((n - 1 - i) as i32) } else { b.ops@[i] == Op::Or((n - 1 - i) as i32) }))
-            && (b.ops@[i] is And || b.ops@[i] is Or)
+            && (if is_and { b.ops@[i] matches Op::And(j) && (small(b.ops@) ==> continues_at(i, j, n)) }
+                else { b.ops@[i] matches Op::Or(j) && (small(b.ops@) ==> continues_at(i, j, n)) })
+}
+
+// One operand, then the ops `tail` (not, cast, grouping).
+pub open spec fn unary_emits(a: OpsMap, b: OpsMap, e: Expression, tail: Seq<Op>) -> bool {
+    let n0 = a.ops@.len() as int;
+    let n = b.ops@.len() as int;
+    &&& appended(a, b)
+    &&& code_at(e, b.ops@, n0, n - tail.len())
+    &&& b.ops@.subrange(n - tail.len(), n) =~= tail
+}
+// One op, one operand, one op (convert, out).
+pub open spec fn bracketed_emits(a: OpsMap, b: OpsMap, first: Op, e: Expression, last: Op) -> bool {
+    let n0 = a.ops@.len() as int;
+    let n = b.ops@.len() as int;
+    &&& appended(a, b)
+    &&& b.ops@[n0] == first
+    &&& code_at(e, b.ops@, n0 + 1, n - 1)
+    &&& b.ops@[n - 1] == last
 }
 
 //@ extract src/build/opcode/translate.rs :: impl AST :: fn translate_expr :: arm "BinaryExprType::Add =>"
@@ -119,8 +247,178 @@ $BODY
 //@   sig <<<
         ensures binary_emits(*old(ops), *final(ops), *def.left, *def.right, seq![Op::Add])
 //@   >>>
+//@   mutant bin_add_arm_swapped "Self::translate_expr(*def.right, ops, root); Self::translate_expr(*def.left, ops, root);" => "Self::translate_expr(*def.left, ops, root); Self::translate_expr(*def.right, ops, root);" expect bin_add_arm
+//@   mutant bin_add_arm_wrong_op "ops.push(Op::Add, def.pos);" => "ops.push(Op::Sub, def.pos);" expect bin_add_arm
 //@ end
 
+//@ extract src/build/opcode/translate.rs :: impl AST :: fn translate_expr :: arm "BinaryExprType::Sub =>"
+//@   wrap <<<
+fn bin_sub_arm(def: BinaryOpDef, ops: &mut OpsMap, root: &VPath)
+$BODY
+//@   >>>
+//@   subst all "Self::translate_expr" => "translate_expr"
+//@   sig <<<
+        ensures binary_emits(*old(ops), *final(ops), *def.left, *def.right, seq![Op::Sub])
+//@   >>>
+//@   mutant bin_sub_arm_swapped "Self::translate_expr(*def.right, ops, root); Self::translate_expr(*def.left, ops, root);" => "Self::translate_expr(*def.left, ops, root); Self::translate_expr(*def.right, ops, root);" expect bin_sub_arm
+//@   mutant bin_sub_arm_wrong_op "ops.push(Op::Sub, def.pos);" => "ops.push(Op::Add, def.pos);" expect bin_sub_arm
+//@ end
+
+//@ extract src/build/opcode/translate.rs :: impl AST :: fn translate_expr :: arm "BinaryExprType::Div =>"
+//@   wrap <<<
+fn bin_div_arm(def: BinaryOpDef, ops: &mut OpsMap, root: &VPath)
+$BODY
+//@   >>>
+//@   subst all "Self::translate_expr" => "translate_expr"
+//@   sig <<<
+        ensures binary_emits(*old(ops), *final(ops), *def.left, *def.right, seq![Op::Div])
+//@   >>>
+//@   mutant bin_div_arm_swapped "Self::translate_expr(*def.right, ops, root); Self::translate_expr(*def.left, ops, root);" => "Self::translate_expr(*def.left, ops, root); Self::translate_expr(*def.right, ops, root);" expect bin_div_arm
+//@   mutant bin_div_arm_wrong_op "ops.push(Op::Div, def.pos);" => "ops.push(Op::Mod, def.pos);" expect bin_div_arm
+//@ end
+
+//@ extract src/build/opcode/translate.rs :: impl AST :: fn translate_expr :: arm "BinaryExprType::Mul =>"
+//@   wrap <<<
+fn bin_mul_arm(def: BinaryOpDef, ops: &mut OpsMap, root: &VPath)
+$BODY
+//@   >>>
+//@   subst all "Self::translate_expr" => "translate_expr"
+//@   sig <<<
+        ensures binary_emits(*old(ops), *final(ops), *def.left, *def.right, seq![Op::Mul])
+//@   >>>
+//@   mutant bin_mul_arm_swapped "Self::translate_expr(*def.right, ops, root); Self::translate_expr(*def.left, ops, root);" => "Self::translate_expr(*def.left, ops, root); Self::translate_expr(*def.right, ops, root);" expect bin_mul_arm
+//@   mutant bin_mul_arm_wrong_op "ops.push(Op::Mul, def.pos);" => "ops.push(Op::Div, def.pos);" expect bin_mul_arm
+//@ end
+
+//@ extract src/build/opcode/translate.rs :: impl AST :: fn translate_expr :: arm "BinaryExprType::Mod =>"
+//@   wrap <<<
+fn bin_mod_arm(def: BinaryOpDef, ops: &mut OpsMap, root: &VPath)
+$BODY
+//@   >>>
+//@   subst all "Self::translate_expr" => "translate_expr"
+//@   sig <<<
+        ensures binary_emits(*old(ops), *final(ops), *def.left, *def.right, seq![Op::Mod])
+//@   >>>
+//@   mutant bin_mod_arm_swapped "Self::translate_expr(*def.right, ops, root); Self::translate_expr(*def.left, ops, root);" => "Self::translate_expr(*def.left, ops, root); Self::translate_expr(*def.right, ops, root);" expect bin_mod_arm
+//@   mutant bin_mod_arm_wrong_op "ops.push(Op::Mod, def.pos);" => "ops.push(Op::Div, def.pos);" expect bin_mod_arm
+//@ end
+
+//@ extract src/build/opcode/translate.rs :: impl AST :: fn translate_expr :: arm "BinaryExprType::Equal =>"
+//@   wrap <<<
+fn bin_equal_arm(def: BinaryOpDef, ops: &mut OpsMap, root: &VPath)
+$BODY
+//@   >>>
+//@   subst all "Self::translate_expr" => "translate_expr"
+//@   sig <<<
+        ensures binary_emits(*old(ops), *final(ops), *def.left, *def.right, seq![Op::Equal])
+//@   >>>
+//@   mutant bin_equal_arm_swapped "Self::translate_expr(*def.right, ops, root); Self::translate_expr(*def.left, ops, root);" => "Self::translate_expr(*def.left, ops, root); Self::translate_expr(*def.right, ops, root);" expect bin_equal_arm
+//@   mutant bin_equal_arm_wrong_op "ops.push(Op::Equal, def.pos);" => "ops.push(Op::Equal, def.pos.clone()); ops.push(Op::Not, def.pos);" expect bin_equal_arm
+//@ end
+
+//@ extract src/build/opcode/translate.rs :: impl AST :: fn translate_expr :: arm "BinaryExprType::GT =>"
+//@   wrap <<<
+fn bin_gt_arm(def: BinaryOpDef, ops: &mut OpsMap, root: &VPath)
+$BODY
+//@   >>>
+//@   subst all "Self::translate_expr" => "translate_expr"
+//@   sig <<<
+        ensures binary_emits(*old(ops), *final(ops), *def.left, *def.right, seq![Op::Gt])
+//@   >>>
+//@   mutant bin_gt_arm_swapped "Self::translate_expr(*def.right, ops, root); Self::translate_expr(*def.left, ops, root);" => "Self::translate_expr(*def.left, ops, root); Self::translate_expr(*def.right, ops, root);" expect bin_gt_arm
+//@   mutant bin_gt_arm_wrong_op "ops.push(Op::Gt, def.pos);" => "ops.push(Op::GtEq, def.pos);" expect bin_gt_arm
+//@ end
+
+//@ extract src/build/opcode/translate.rs :: impl AST :: fn translate_expr :: arm "BinaryExprType::LT =>"
+//@   wrap <<<
+fn bin_lt_arm(def: BinaryOpDef, ops: &mut OpsMap, root: &VPath)
+$BODY
+//@   >>>
+//@   subst all "Self::translate_expr" => "translate_expr"
+//@   sig <<<
+        ensures binary_emits(*old(ops), *final(ops), *def.left, *def.right, seq![Op::Lt])
+//@   >>>
+//@   mutant bin_lt_arm_swapped "Self::translate_expr(*def.right, ops, root); Self::translate_expr(*def.left, ops, root);" => "Self::translate_expr(*def.left, ops, root); Self::translate_expr(*def.right, ops, root);" expect bin_lt_arm
+//@   mutant bin_lt_arm_wrong_op "ops.push(Op::Lt, def.pos);" => "ops.push(Op::Gt, def.pos);" expect bin_lt_arm
+//@ end
+
+//@ extract src/build/opcode/translate.rs :: impl AST :: fn translate_expr :: arm "BinaryExprType::GTEqual =>"
+//@   wrap <<<
+fn bin_gteq_arm(def: BinaryOpDef, ops: &mut OpsMap, root: &VPath)
+$BODY
+//@   >>>
+//@   subst all "Self::translate_expr" => "translate_expr"
+//@   sig <<<
+        ensures binary_emits(*old(ops), *final(ops), *def.left, *def.right, seq![Op::GtEq])
+//@   >>>
+//@   mutant bin_gteq_arm_swapped "Self::translate_expr(*def.right, ops, root); Self::translate_expr(*def.left, ops, root);" => "Self::translate_expr(*def.left, ops, root); Self::translate_expr(*def.right, ops, root);" expect bin_gteq_arm
+//@   mutant bin_gteq_arm_wrong_op "ops.push(Op::GtEq, def.pos);" => "ops.push(Op::Gt, def.pos);" expect bin_gteq_arm
+//@ end
+
+//@ extract src/build/opcode/translate.rs :: impl AST :: fn translate_expr :: arm "BinaryExprType::LTEqual =>"
+//@   wrap <<<
+fn bin_lteq_arm(def: BinaryOpDef, ops: &mut OpsMap, root: &VPath)
+$BODY
+//@   >>>
+//@   subst all "Self::translate_expr" => "translate_expr"
+//@   sig <<<
+        ensures binary_emits(*old(ops), *final(ops), *def.left, *def.right, seq![Op::LtEq])
+//@   >>>
+//@   mutant bin_lteq_arm_swapped "Self::translate_expr(*def.right, ops, root); Self::translate_expr(*def.left, ops, root);" => "Self::translate_expr(*def.left, ops, root); Self::translate_expr(*def.right, ops, root);" expect bin_lteq_arm
+//@   mutant bin_lteq_arm_wrong_op "ops.push(Op::LtEq, def.pos);" => "ops.push(Op::GtEq, def.pos);" expect bin_lteq_arm
+//@ end
+
+//@ extract src/build/opcode/translate.rs :: impl AST :: fn translate_expr :: arm "BinaryExprType::NotEqual =>"
+//@   wrap <<<
+fn bin_noteq_arm(def: BinaryOpDef, ops: &mut OpsMap, root: &VPath)
+$BODY
+//@   >>>
+//@   subst all "Self::translate_expr" => "translate_expr"
+//@   sig <<<
+        ensures binary_emits(*old(ops), *final(ops), *def.left, *def.right, seq![Op::Equal, Op::Not])
+//@   >>>
+//@   mutant bin_noteq_arm_swapped "Self::translate_expr(*def.right, ops, root); Self::translate_expr(*def.left, ops, root);" => "Self::translate_expr(*def.left, ops, root); Self::translate_expr(*def.right, ops, root);" expect bin_noteq_arm
+//@   mutant bin_noteq_arm_wrong_op "ops.push(Op::Not, def.pos);" => "ops.push(Op::Noop, def.pos);" expect bin_noteq_arm
+//@ end
+
+//@ extract src/build/opcode/translate.rs :: impl AST :: fn translate_expr :: arm "BinaryExprType::REMatch =>"
+//@   wrap <<<
+fn bin_rematch_arm(def: BinaryOpDef, ops: &mut OpsMap, root: &VPath)
+$BODY
+//@   >>>
+//@   subst all "Self::translate_expr" => "translate_expr"
+//@   sig <<<
+        ensures binary_emits(*old(ops), *final(ops), *def.left, *def.right, seq![Op::Runtime(Hook::Regex)])
+//@   >>>
+//@   mutant bin_rematch_arm_swapped "Self::translate_expr(*def.right, ops, root); Self::translate_expr(*def.left, ops, root);" => "Self::translate_expr(*def.left, ops, root); Self::translate_expr(*def.right, ops, root);" expect bin_rematch_arm
+//@   mutant bin_rematch_arm_wrong_op "ops.push(Op::Runtime(Hook::Regex), def.pos);" => "ops.push(Op::Equal, def.pos);" expect bin_rematch_arm
+//@ end
+
+//@ extract src/build/opcode/translate.rs :: impl AST :: fn translate_expr :: arm "BinaryExprType::NotREMatch =>"
+//@   wrap <<<
+fn bin_notrematch_arm(def: BinaryOpDef, ops: &mut OpsMap, root: &VPath)
+$BODY
+//@   >>>
+//@   subst all "Self::translate_expr" => "translate_expr"
+//@   sig <<<
+        ensures binary_emits(*old(ops), *final(ops), *def.left, *def.right, seq![Op::Runtime(Hook::Regex), Op::Not])
+//@   >>>
+//@   mutant bin_notrematch_arm_swapped "Self::translate_expr(*def.right, ops, root); Self::translate_expr(*def.left, ops, root);" => "Self::translate_expr(*def.left, ops, root); Self::translate_expr(*def.right, ops, root);" expect bin_notrematch_arm
+//@   mutant bin_notrematch_arm_wrong_op "ops.push(Op::Not, def.pos);" => "ops.push(Op::Noop, def.pos);" expect bin_notrematch_arm
+//@ end
+
+//@ extract src/build/opcode/translate.rs :: impl AST :: fn translate_expr :: arm "BinaryExprType::IS =>"
+//@   wrap <<<
+fn bin_is_arm(def: BinaryOpDef, ops: &mut OpsMap, root: &VPath)
+$BODY
+//@   >>>
+//@   subst all "Self::translate_expr" => "translate_expr"
+//@   sig <<<
+        ensures binary_emits(*old(ops), *final(ops), *def.left, *def.right, seq![Op::Typ, Op::Equal])
+//@   >>>
+//@   mutant bin_is_arm_swapped "Self::translate_expr(*def.right, ops, root); Self::translate_expr(*def.left, ops, root);" => "Self::translate_expr(*def.left, ops, root); Self::translate_expr(*def.right, ops, root);" expect bin_is_arm
+//@   mutant bin_is_arm_wrong_op "ops.push(Op::Typ, def.pos.clone()); ops.push(Op::Equal, def.pos);" => "ops.push(Op::Equal, def.pos.clone()); ops.push(Op::Typ, def.pos);" expect bin_is_arm
+//@ end
 //@ extract src/build/opcode/translate.rs :: impl AST :: fn translate_expr :: arm "BinaryExprType::AND =>"
 //@   wrap <<<
 fn bin_and_arm(def: BinaryOpDef, ops: &mut OpsMap, root: &VPath)
@@ -130,6 +428,405 @@ $BODY
 //@   sig <<<
         ensures short_circuit_emits(*old(ops), *final(ops), *def.left, *def.right, true)
 //@   >>>
+//@   mutant and_offset_plus_one "let jptr = (ops.len() - 1 - idx) as i32;" => "let jptr = (ops.len() - idx) as i32;" expect bin_and_arm
+//@   mutant and_offset_absolute "let jptr = (ops.len() - 1 - idx) as i32;" => "let jptr = (ops.len() - 1) as i32;" expect bin_and_arm
+//@   mutant and_emits_or "ops.replace(idx, Op::And(jptr));" => "ops.replace(idx, Op::Or(jptr));" expect bin_and_arm
+//@   mutant and_right_first "Self::translate_expr(*def.left, ops, root); ops.push(Op::Noop, def.pos); let idx = ops.len() - 1; Self::translate_expr(*def.right, ops, root);" => "Self::translate_expr(*def.right, ops, root); ops.push(Op::Noop, def.pos); let idx = ops.len() - 1; Self::translate_expr(*def.left, ops, root);" expect bin_and_arm
+//@ end
+
+//@ extract src/build/opcode/translate.rs :: impl AST :: fn translate_expr :: arm "BinaryExprType::OR =>"
+//@   wrap <<<
+fn bin_or_arm(def: BinaryOpDef, ops: &mut OpsMap, root: &VPath)
+$BODY
+//@   >>>
+//@   subst all "Self::translate_expr" => "translate_expr"
+//@   sig <<<
+        ensures short_circuit_emits(*old(ops), *final(ops), *def.left, *def.right, false)
+//@   >>>
+//@   mutant or_offset_minus_one "let jptr = (ops.len() - 1 - idx) as i32;" => "let jptr = (ops.len() - 1 - idx - 1) as i32;" expect bin_or_arm
+//@   mutant or_idx_before_push "ops.push(Op::Noop, def.pos); let idx = ops.len() - 1;" => "let idx = ops.len() - 1; ops.push(Op::Noop, def.pos);" expect bin_or_arm
+//@   mutant or_emits_and "ops.replace(idx, Op::Or(jptr));" => "ops.replace(idx, Op::And(jptr));" expect bin_or_arm
+//@ end
+
+// ---------- not / grouping / cast / fail / range / convert / map-filter-reduce ----------
+//@ extract src/build/opcode/translate.rs :: impl AST :: fn translate_expr :: arm "Expression::Not(def) =>"
+//@   wrap <<<
+fn not_arm(def: NotDef, ops: &mut OpsMap, root: &VPath)
+$BODY
+//@   >>>
+//@   subst all "Self::translate_expr" => "translate_expr"
+//@   sig <<<
+        ensures unary_emits(*old(ops), *final(ops), *def.expr, seq![Op::Not])
+//@   >>>
+//@   mutant not_dropped "ops.push(Op::Not, def.pos);" => "ops.push(Op::Noop, def.pos);" expect not_arm
+//@   mutant not_before_operand "Self::translate_expr(*def.expr, ops, root); ops.push(Op::Not, def.pos);" => "ops.push(Op::Not, def.pos.clone()); Self::translate_expr(*def.expr, ops, root);" expect not_arm
+//@ end
+
+// `( e )` is exactly the code of e
+//@ extract src/build/opcode/translate.rs :: impl AST :: fn translate_expr :: arm "Expression::Grouped(expr, _) =>"
+//@   wrap <<<
+fn grouped_arm(expr: Box<Expression>, ops: &mut OpsMap, root: &VPath)
+$BODY
+//@   >>>
+//@   subst all "Self::translate_expr" => "translate_expr"
+//@   sig <<<
+        ensures unary_emits(*old(ops), *final(ops), *expr, Seq::<Op>::empty())
+//@   >>>
+//@   mutant grouped_extra_op "Self::translate_expr(*expr, ops, root);" => "let p = expr.pos().clone(); Self::translate_expr(*expr, ops, root); ops.push(Op::Pop, p);" expect grouped_arm
+//@   mutant grouped_twice "Self::translate_expr(*expr, ops, root);" => "Self::translate_expr(*expr.clone(), ops, root); Self::translate_expr(*expr, ops, root);" expect grouped_arm
+//@ end
+
+//@ extract src/build/opcode/translate.rs :: impl AST :: fn translate_expr :: arm "Expression::Cast(cast_def) =>"
+//@   wrap <<<
+fn cast_arm(cast_def: CastDef, ops: &mut OpsMap, root: &VPath)
+$BODY
+//@   >>>
+//@   subst all "Self::translate_expr" => "translate_expr"
+//@   sig <<<
+        ensures unary_emits(*old(ops), *final(ops), *cast_def.target, seq![Op::Cast(cast_def.cast_type)])
+//@   >>>
+//@   mutant cast_wrong_type "ops.push(Op::Cast(cast_def.cast_type), cast_def.pos);" => "ops.push(Op::Cast(CastType::Str), cast_def.pos);" expect cast_arm
+//@   mutant cast_before_target "Self::translate_expr(*cast_def.target, ops, root); ops.push(Op::Cast(cast_def.cast_type), cast_def.pos);" => "ops.push(Op::Cast(cast_def.cast_type), cast_def.pos); Self::translate_expr(*cast_def.target, ops, root);" expect cast_arm
+//@ end
+
+// `fail msg`: the message, then the prefix string ON TOP (so that `Add` yields prefix + message: left operand on
+// top), `Add`, `Bang` (raises the string on top of the stack).
+pub open spec fn fail_emits(a: OpsMap, b: OpsMap, msg: Expression) -> bool {
+    let n0 = a.ops@.len() as int;
+    let n = b.ops@.len() as int;
+    &&& appended(a, b)
+    &&& code_at(msg, b.ops@, n0, n - 3)
+    &&& (b.ops@[n - 3] matches Op::Val(Primitive::Str(s)) && s@ == "UserDefined: "@)
+    &&& b.ops@[n - 2] == Op::Add
+    &&& b.ops@[n - 1] == Op::Bang
+}
+//@ extract src/build/opcode/translate.rs :: impl AST :: fn translate_expr :: arm "Expression::Fail(def) =>"
+//@   wrap <<<
+fn fail_arm(def: FailDef, ops: &mut OpsMap, root: &VPath)
+$BODY
+//@   >>>
+//@   subst all "Self::translate_expr" => "translate_expr"
+//@   subst all ".into()" => ".vinto()"
+//@   sig <<<
+        ensures fail_emits(*old(ops), *final(ops), *def.message)
+//@   >>>
+//@   mutant fail_prefix_below_message "Self::translate_expr(*def.message, ops, root); ops.push(Op::Val(Primitive::Str(\"UserDefined: \".into())), msg_pos);" => "ops.push(Op::Val(Primitive::Str(\"UserDefined: \".into())), msg_pos); Self::translate_expr(*def.message, ops, root);" expect fail_arm
+//@   mutant fail_no_bang "ops.push(Op::Bang, def.pos);" => "ops.push(Op::Pop, def.pos);" expect fail_arm
+//@   mutant fail_no_add "ops.push(Op::Add, def.pos.clone());" => "" expect fail_arm
+//@ end
+
+// `start:step:end`: the range hook (runtime.rs `range`, unit rt_range) pops start, then step, then end; a missing
+// step is the Empty value.  So: code(end), code(step) | Val(Empty), code(start), Runtime(Range).
+pub open spec fn range_emits(a: OpsMap, b: OpsMap, def: RangeDef) -> bool {
+    let n0 = a.ops@.len() as int;
+    let n = b.ops@.len() as int;
+    &&& appended(a, b)
+    &&& exists|m1: int, m2: int, m3: int| #![trigger frag(*def.end, n0, m1), frag(*def.start, m2, m3)]
+            m3 == n - 1
+            && code_at(*def.end, b.ops@, n0, m1)
+            && (match def.step {
+                    Some(st) => code_at(*st, b.ops@, m1, m2),
+                    None => m2 == m1 + 1 && b.ops@[m1] == Op::Val(Primitive::Empty),
+               })
+            && code_at(*def.start, b.ops@, m2, m3)
+    &&& b.ops@[n - 1] == Op::Runtime(Hook::Range)
+}
+//@ extract src/build/opcode/translate.rs :: impl AST :: fn translate_expr :: arm "Expression::Range(def) =>"
+//@   wrap <<<
+fn range_arm(def: RangeDef, ops: &mut OpsMap, root: &VPath)
+$BODY
+//@   >>>
+//@   subst all "Self::translate_expr" => "translate_expr"
+//@   sig <<<
+        ensures range_emits(*old(ops), *final(ops), def)
+//@   >>>
+//@   mutant range_start_end_swapped "Self::translate_expr(*def.end, ops, root); if" => "Self::translate_expr(*def.start, ops, root); if" expect range_arm
+//@   mutant range_step_last "Self::translate_expr(*def.start, ops, root); ops.push(Op::Runtime(Hook::Range), def.pos);" => "ops.push(Op::Runtime(Hook::Range), def.pos); Self::translate_expr(*def.start, ops, root);" expect range_arm
+//@   mutant range_default_step_missing "ops.push(Op::Val(Primitive::Empty), def.pos.clone());" => "" expect range_arm
+//@   mutant range_wrong_hook "Op::Runtime(Hook::Range)" => "Op::Runtime(Hook::Map)" expect range_arm
+//@ end
+
+// `convert NAME expr`: the converter's name, the target, the hook
+//@ extract src/build/opcode/translate.rs :: impl AST :: fn translate_expr :: arm "Expression::Convert(def) =>"
+//@   wrap <<<
+fn convert_arm(def: ConvertDef, ops: &mut OpsMap, root: &VPath)
+$BODY
+//@   >>>
+//@   subst all "Self::translate_expr" => "translate_expr"
+//@   sig <<<
+        ensures bracketed_emits(*old(ops), *final(ops), Op::Val(Primitive::Str(def.converter.fragment)), *def.target, Op::Runtime(Hook::Convert))
+//@   >>>
+//@   mutant convert_wrong_hook "Op::Runtime(Hook::Convert)" => "Op::Runtime(Hook::Out)" expect convert_arm
+//@   mutant convert_target_dropped "Self::translate_expr(*def.target, ops, root);" => "" expect convert_arm
+//@ end
+
+// map / filter / reduce: function, [accumulator,] target, hook (runtime.rs pops target, [acc,] func)
+pub open spec fn funcop2_emits(a: OpsMap, b: OpsMap, f: Expression, target: Expression, hook: Hook) -> bool {
+    let n0 = a.ops@.len() as int;
+    let n = b.ops@.len() as int;
+    &&& appended(a, b)
+    &&& exists|m: int| #[trigger] frag(f, n0, m) && code_at(f, b.ops@, n0, m) && code_at(target, b.ops@, m, n - 1)
+    &&& b.ops@[n - 1] == Op::Runtime(hook)
+}
+pub open spec fn funcop3_emits(a: OpsMap, b: OpsMap, f: Expression, acc: Expression, target: Expression, hook: Hook) -> bool {
+    let n0 = a.ops@.len() as int;
+    let n = b.ops@.len() as int;
+    &&& appended(a, b)
+    &&& exists|m1: int, m2: int, m3: int| #![trigger frag(f, n0, m1), frag(target, m2, m3)]
+            m3 == n - 1 && code_at(f, b.ops@, n0, m1) && code_at(acc, b.ops@, m1, m2) && code_at(target, b.ops@, m2, m3)
+    &&& b.ops@[n - 1] == Op::Runtime(hook)
+}
+//@ extract src/build/opcode/translate.rs :: impl AST :: fn translate_expr :: arm "FuncOpDef::Map(def) =>"
+//@   wrap <<<
+fn map_arm(def: MapFilterOpDef, ops: &mut OpsMap, root: &VPath)
+$BODY
+//@   >>>
+//@   subst all "Self::translate_expr" => "translate_expr"
+//@   sig <<<
+        ensures funcop2_emits(*old(ops), *final(ops), *def.func, *def.target, Hook::Map)
+//@   >>>
+//@   mutant map_is_filter "Op::Runtime(Hook::Map)" => "Op::Runtime(Hook::Filter)" expect map_arm
+//@   mutant map_func_dropped "Self::translate_expr(*def.func, ops, root);" => "" expect map_arm
+//@ end
+//@ extract src/build/opcode/translate.rs :: impl AST :: fn translate_expr :: arm "FuncOpDef::Filter(def) =>"
+//@   wrap <<<
+fn filter_arm(def: MapFilterOpDef, ops: &mut OpsMap, root: &VPath)
+$BODY
+//@   >>>
+//@   subst all "Self::translate_expr" => "translate_expr"
+//@   sig <<<
+        ensures funcop2_emits(*old(ops), *final(ops), *def.func, *def.target, Hook::Filter)
+//@   >>>
+//@   mutant filter_is_map "Op::Runtime(Hook::Filter)" => "Op::Runtime(Hook::Map)" expect filter_arm
+//@ end
+//@ extract src/build/opcode/translate.rs :: impl AST :: fn translate_expr :: arm "FuncOpDef::Reduce(def) =>"
+//@   wrap <<<
+fn reduce_arm(def: ReduceOpDef, ops: &mut OpsMap, root: &VPath)
+$BODY
+//@   >>>
+//@   subst all "Self::translate_expr" => "translate_expr"
+//@   sig <<<
+        ensures funcop3_emits(*old(ops), *final(ops), *def.func, *def.acc, *def.target, Hook::Reduce)
+//@   >>>
+//@   mutant reduce_acc_target_swapped "Self::translate_expr(*def.acc, ops, root); Self::translate_expr(*def.target, ops, root);" => "Self::translate_expr(*def.target, ops, root); Self::translate_expr(*def.acc, ops, root);" expect reduce_arm
+//@   mutant reduce_wrong_hook "Op::Runtime(Hook::Reduce)" => "Op::Runtime(Hook::Map)" expect reduce_arm
+//@ end
+
+// ---------- func ----------
+// `func (a, b) => body`: an empty list, each parameter name appended to it (`Sym`, `Element`), then `Func(j)` at index i
+// (vm.rs `op_func`: pops the name list, remembers i as the function's entry and jumps by j), the body's code,
+// `Return`.  The jump must skip the body: i + j is the `Return`, execution continues behind it at the end.
+pub open spec fn param_op(argdefs: Seq<(PositionedItem<Rc<str>>, Option<Expression>)>, r: int) -> Op {
+    if r % 2 == 0 { Op::Sym(argdefs[r / 2].0.val) } else { Op::Element }
+}
+pub open spec fn func_emits(a: OpsMap, b: OpsMap, def: FuncDef) -> bool {
+    let n0 = a.ops@.len() as int;
+    let n = b.ops@.len() as int;
+    let i = n0 + 1 + 2 * def.argdefs@.len();
+    &&& appended(a, b)
+    &&& b.ops@[n0] == Op::InitList
+    &&& forall|q: int| n0 + 1 <= q < i ==> (#[trigger] b.ops@[q]) == param_op(def.argdefs@, q - (n0 + 1))
+    &&& (b.ops@[i] matches Op::Func(j) && (small(b.ops@) ==> continues_at(i, j, n)))
+    &&& code_at(*def.fields, b.ops@, i + 1, n - 1)
+    &&& b.ops@[n - 1] == Op::Return
+}
+//@ extract src/build/opcode/translate.rs :: impl AST :: fn translate_expr :: arm "Expression::Func(def) =>"
+//@   wrap <<<
+fn func_arm(def: FuncDef, ops: &mut OpsMap, root: &VPath)
+$BODY
+//@   >>>
+//@   subst all "Self::translate_expr" => "translate_expr"
+//@   sig <<<
+        ensures func_emits(*old(ops), *final(ops), def)
+//@   >>>
+//@   loop 1 iter it
+//@   loop 1 <<<
+                    invariant
+                        it.seq() == def.argdefs@,
+                        extends(*old(ops), *ops),
+                        ops.ops@.len() == old(ops).ops@.len() + 1 + 2 * it.index@,
+                        ops.ops@[old(ops).ops@.len() as int] == Op::InitList,
+                        forall|q: int| old(ops).ops@.len() + 1 <= q < ops.ops@.len() ==>
+                            (#[trigger] ops.ops@[q]) == param_op(def.argdefs@, q - (old(ops).ops@.len() + 1)),
+//@   >>>
+//@   mutant func_offset_plus_one "let jptr = ops.len() - 1 - idx;" => "let jptr = ops.len() - idx;" expect func_arm
+//@   mutant func_offset_before_return "ops.push(Op::Return, def.pos); let jptr = ops.len() - 1 - idx;" => "let jptr = ops.len() - 1 - idx; ops.push(Op::Return, def.pos);" expect func_arm
+//@   mutant func_no_return "ops.push(Op::Return, def.pos);" => "ops.push(Op::Noop, def.pos);" expect func_arm
+//@   mutant func_param_order "ops.push(Op::Sym(b.val), b.pos.clone()); ops.push(Op::Element, b.pos);" => "ops.push(Op::Element, b.pos.clone()); ops.push(Op::Sym(b.val), b.pos);" expect func_arm
+//@   mutant func_patches_wrong_slot "ops.replace(idx, Op::Func(jptr as i32));" => "ops.replace(idx - 1, Op::Func(jptr as i32));" expect func_arm
+//@ end
+
+// ---------- select ----------
+// `select (val, default) => { k1 = e1, .. }` (reference: the field named by val, else the default, else a failure).
+// code(val); then per case c, starting at st_c:  Sym(k_c) | SelectJump(j) | code(e_c) | Jump(j')
+//   - vm_ctrl `op_select_jump`: on a match both the name and the searched value are popped and the case body runs;
+//     otherwise the searched value stays and the jump is taken: it must continue at the NEXT case's `Sym`
+//     (st_{c+1}), or behind the last case at the `Pop` that drops the searched value before the default;
+//   - the `Jump` behind the body must continue behind the whole select (the end of the fragment);
+// then `Pop`, then code(default), or - no default - a string and `Bang`.
+// `js[c]` is the index of case c's exit jump (the translator's own `jumps` list).
+pub open spec fn case_start(v: int, js: Seq<usize>, c: int) -> int { if c <= 0 { v } else { js[c - 1] + 1 } }
+pub open spec fn increasing(js: Seq<usize>) -> bool {
+    forall|c1: int, c2: int| 0 <= c1 < c2 < js.len() ==> js[c1] < js[c2]
+}
+// (always true: only the handle by which the prover picks a case - a trigger on `js[c]` would loop through `case_start`)
+pub open spec fn case_no(c: int) -> bool { true }
+// case c occupies s[st ..= e]; the first `patched` exit jumps have been filled in, the others are still `Noop`
+pub open spec fn case_ok(cases: Seq<(Token, Option<Expression>, Expression)>, s: Seq<Op>, st: int, e: int, c: int, patched: int) -> bool {
+    &&& 0 <= st && st + 2 < e < s.len()
+    &&& s[st] == Op::Sym(cases[c].0.fragment)
+    &&& (s[st + 1] matches Op::SelectJump(j) && (small(s) ==> continues_at(st + 1, j, e + 1)))
+    &&& code_at(cases[c].2, s, st + 2, e)
+    &&& if c < patched { s[e] matches Op::Jump(j) && (small(s) ==> continues_at(e, j, s.len() as int)) } else { s[e] == Op::Noop }
+}
+// after `done` cases (first loop)
+pub open spec fn select_cases(def: SelectDef, s: Seq<Op>, n0: int, v: int, js: Seq<usize>, done: int) -> bool {
+    let cases = def.tuple@;
+    &&& js.len() == done && 0 <= done <= cases.len()
+    &&& code_at(*def.val, s, n0, v)
+    &&& increasing(js)
+    &&& forall|c: int| 0 <= c < done && #[trigger] case_no(c) ==> case_ok(cases, s, case_start(v, js, c), js[c] as int, c, 0)
+    &&& s.len() == case_start(v, js, done)
+}
+// the whole select, with the first `patched` exit jumps filled in
+pub open spec fn select_layout(def: SelectDef, s: Seq<Op>, n0: int, v: int, js: Seq<usize>, patched: int) -> bool {
+    let cases = def.tuple@;
+    let p = case_start(v, js, cases.len() as int);
+    let n = s.len() as int;
+    &&& js.len() == cases.len() && 0 <= patched <= cases.len()
+    &&& code_at(*def.val, s, n0, v)
+    &&& increasing(js)
+    &&& forall|c: int| 0 <= c < cases.len() && #[trigger] case_no(c) ==> case_ok(cases, s, case_start(v, js, c), js[c] as int, c, patched)
+    &&& v <= p < n && s[p] == Op::Pop
+    &&& match def.default {
+            Some(d) => code_at(*d, s, p + 1, n),
+            None => n == p + 3 && (s[p + 1] matches Op::Val(Primitive::Str(_))) && s[p + 2] == Op::Bang,
+        }
+}
+pub open spec fn select_emits(a: OpsMap, b: OpsMap, def: SelectDef) -> bool {
+    &&& appended(a, b)
+    &&& exists|v: int, js: Seq<usize>| #[trigger] select_layout(def, b.ops@, a.ops@.len() as int, v, js, def.tuple@.len() as int)
+}
+//@ extract src/build/opcode/translate.rs :: impl AST :: fn translate_expr :: arm "Expression::Select(def) =>"
+//@   wrap <<<
+fn select_arm(def: SelectDef, ops: &mut OpsMap, root: &VPath)
+$BODY
+//@   >>>
+//@   subst all "Self::translate_expr" => "translate_expr"
+//@   sig <<<
+        ensures select_emits(*old(ops), *final(ops), def)
+//@   >>>
+//@   loop 1 iter it
+//@   loop 1 <<<
+                    invariant
+                        it.seq() == def.tuple@,
+                        appended(*old(ops), *ops),
+                        exists|v: int| #[trigger] frag(*def.val, old(ops).ops@.len() as int, v)
+                            && select_cases(def, ops.ops@, old(ops).ops@.len() as int, v, jumps@, it.index@),
+//@   >>>
+//@   loop 2 iter it2
+//@   loop 2 <<<
+                    invariant
+                        it2.seq() == jumps@,
+                        appended(*old(ops), *ops),
+                        end + 1 == ops.ops@.len(),
+                        exists|v: int| #[trigger] frag(*def.val, old(ops).ops@.len() as int, v)
+                            && select_layout(def, ops.ops@, old(ops).ops@.len() as int, v, jumps@, it2.index@),
+//@   >>>
+//@ end
+
+// ---------- statements ----------
+// `let name [:: constraint] = value;` (reference: "Any collisions in binding names inside a file are treated as compile
+// errors. Bindings are immutable and once bound they can't be modified."):  Sym(name), code(value),
+// [code(constraint), CheckConstraint (vm.rs: pops the constraint, leaves the value),] and the STRICT `Bind`
+// (vm.rs `op_bind(true)`: an existing binding is an error), never `BindOver`.
+pub open spec fn let_emits(a: OpsMap, b: OpsMap, def: LetDef) -> bool {
+    let n0 = a.ops@.len() as int;
+    let n = b.ops@.len() as int;
+    &&& appended(a, b)
+    &&& b.ops@[n0] == Op::Sym(def.name.fragment)
+    &&& exists|a1: int, m: int| #[trigger] frag(def.value, a1, m) && a1 == n0 + 1 && code_at(def.value, b.ops@, a1, m)
+            && (match def.constraint {
+                    Some(c) => code_at(c, b.ops@, m, n - 2) && b.ops@[n - 2] == Op::CheckConstraint,
+                    None => m == n - 1,
+               })
+    &&& b.ops@[n - 1] == Op::Bind
+}
+//@ extract src/build/opcode/translate.rs :: impl AST :: fn translate_stmt :: arm "Statement::Let(def) =>"
+//@   wrap <<<
+fn stmt_let_arm(def: Box<LetDef>, ops: &mut OpsMap, root: &VPath)
+$BODY
+//@   >>>
+//@   subst all "Self::translate_expr" => "translate_expr"
+//@   sig <<<
+        ensures let_emits(*old(ops), *final(ops), *def)
+//@   >>>
+//@   mutant let_bind_over "ops.push(Op::Bind, def.pos);" => "ops.push(Op::BindOver, def.pos);" expect stmt_let_arm
+//@   mutant let_value_before_name "ops.push(Op::Sym(binding), def.name.pos); Self::translate_expr(def.value, ops, root);" => "Self::translate_expr(def.value, ops, root); ops.push(Op::Sym(binding), def.name.pos);" expect stmt_let_arm
+//@   mutant let_constraint_unchecked "ops.push(Op::CheckConstraint, def.pos.clone());" => "" expect stmt_let_arm
+//@   mutant let_check_after_bind "ops.push(Op::CheckConstraint, def.pos.clone()); } ops.push(Op::Bind, def.pos);" => "ops.push(Op::Bind, def.pos.clone()); ops.push(Op::CheckConstraint, def.pos); return; } ops.push(Op::Bind, def.pos);" expect stmt_let_arm
+//@ end
+
+// `constraint name = expr;`: the name is first bound STRICTLY (so a collision with an existing binding is an error,
+// as for `let`) to an empty constraint, then the value is evaluated (it may refer to the name) and only this
+// statement's own pre-binding is overwritten with `BindOver`.
+pub open spec fn constraint_stmt_emits(a: OpsMap, b: OpsMap, def: ConstraintBindingDef) -> bool {
+    let n0 = a.ops@.len() as int;
+    let n = b.ops@.len() as int;
+    &&& appended(a, b)
+    &&& b.ops@[n0] == Op::Sym(def.name.fragment)
+    &&& (b.ops@[n0 + 1] matches Op::BuildConstraint(arms) && arms@.len() == 0)
+    &&& b.ops@[n0 + 2] == Op::Bind
+    &&& b.ops@[n0 + 3] == Op::Sym(def.name.fragment)
+    &&& code_at(def.value, b.ops@, n0 + 4, n - 1)
+    &&& b.ops@[n - 1] == Op::BindOver
+}
+//@ extract src/build/opcode/translate.rs :: impl AST :: fn translate_stmt :: arm "Statement::Constraint(def) =>"
+//@   wrap <<<
+fn stmt_constraint_arm(def: ConstraintBindingDef, ops: &mut OpsMap, root: &VPath)
+$BODY
+//@   >>>
+//@   subst all "Self::translate_expr" => "translate_expr"
+//@   sig <<<
+        ensures constraint_stmt_emits(*old(ops), *final(ops), def)
+//@   >>>
+//@   mutant constraint_prebind_over "ops.push(Op::Bind, def.pos.clone());" => "ops.push(Op::BindOver, def.pos.clone());" expect stmt_constraint_arm
+//@   mutant constraint_rebind_strict "ops.push(Op::BindOver, def.pos);" => "ops.push(Op::Bind, def.pos);" expect stmt_constraint_arm
+//@ end
+
+// expression statement: the value is computed and dropped
+//@ extract src/build/opcode/translate.rs :: impl AST :: fn translate_stmt :: arm "Statement::Expression(expr) =>"
+//@   wrap <<<
+fn stmt_expr_arm(expr: Expression, ops: &mut OpsMap, root: &VPath)
+$BODY
+//@   >>>
+//@   subst all "Self::translate_expr" => "translate_expr"
+//@   sig <<<
+        ensures unary_emits(*old(ops), *final(ops), expr, seq![Op::Pop])
+//@   >>>
+//@   mutant stmt_expr_not_popped "ops.push(Op::Pop, expr_pos);" => "ops.push(Op::Noop, expr_pos);" expect stmt_expr_arm
+//@ end
+//@ extract src/build/opcode/translate.rs :: impl AST :: fn translate_stmt :: arm "Statement::Assert(pos, expr) =>"
+//@   wrap <<<
+fn stmt_assert_arm(pos: Position, expr: Expression, ops: &mut OpsMap, root: &VPath)
+$BODY
+//@   >>>
+//@   subst all "Self::translate_expr" => "translate_expr"
+//@   sig <<<
+        ensures unary_emits(*old(ops), *final(ops), expr, seq![Op::Runtime(Hook::Assert)])
+//@   >>>
+//@   mutant stmt_assert_wrong_hook "Op::Runtime(Hook::Assert)" => "Op::Runtime(Hook::Out)" expect stmt_assert_arm
+//@ end
+//@ extract src/build/opcode/translate.rs :: impl AST :: fn translate_stmt :: arm "Statement::Output(pos, tok, expr) =>"
+//@   wrap <<<
+fn stmt_out_arm(pos: Position, tok: Token, expr: Expression, ops: &mut OpsMap, root: &VPath)
+$BODY
+//@   >>>
+//@   subst all "Self::translate_expr" => "translate_expr"
+//@   sig <<<
+        ensures bracketed_emits(*old(ops), *final(ops), Op::Val(Primitive::Str(tok.fragment)), expr, Op::Runtime(Hook::Out))
+//@   >>>
+//@   mutant stmt_out_wrong_hook "Op::Runtime(Hook::Out)" => "Op::Runtime(Hook::Convert)" expect stmt_out_arm
 //@ end
 
 } // verus!
